@@ -135,6 +135,23 @@ def gen_tree(rng, L, nleaves=None, scalar_ok=True):
   return [rng.choice(pool) for _ in range(nl)]
 
 
+def _unaligned_zeros(shape):
+  """float32 zeros whose data pointer is 4 mod 64.
+
+  XLA's CPU client takes suitably aligned numpy arguments of a jitted call zero-copy
+  (kImmutableZeroCopy: the caller must not mutate the buffer while the asynchronously dispatched
+  computation may still read it).  A producer that overwrites such a buffer in place races with JAX
+  itself, whatever the consumer does (observed on the unchanged tree: results change from run to
+  run).  Deliberately misaligned buffers are copied during the call, so overwriting them between
+  yields is legitimate and only Python-level aliasing (e.g. `list(clients)`) can be observed."""
+  n = int(np.prod(shape)) if len(shape) else 1
+  raw = np.zeros(4 * n + 128, np.uint8)
+  off = (4 - raw.ctypes.data) % 64
+  a = raw[off:off + 4 * n].view(np.float32).reshape(shape)
+  assert a.ctypes.data % 64 == 4
+  return a
+
+
 class _ClientDropped(Exception):
   """raised by the injected failing client stream"""
 
@@ -148,7 +165,9 @@ class C11(core.Property):
           '1..4 rounds, 1..3 leaves, leaf shapes / number of leaves constant or changing between rounds, tiny / '
           'mixed / large magnitudes; bit increment judged per round on that round\'s tree; round 0 replayed from '
           'init() at the end; failed attempts (client stream raises after k clients) followed by the retry from '
-          'the unchanged state, compared with a fresh aggregator object; one > 64-client round per aggregator), expectation estimates over 4096 keys (Bernstein bound, 1e-10), u==0 hunts, float32 range probes; '
+          'the unchanged state, compared with a fresh aggregator object; client iterable = list / generator of fresh '
+          'trees / generator refilling one dict / generator overwriting numpy leaves in place, each compared with the '
+          'list result on a fresh object; one > 64-client round per aggregator), expectation estimates over 4096 keys (Bernstein bound, 1e-10), u==0 hunts, float32 range probes; '
           'non-trivial = the vector has at least one coordinate strictly between two grid levels '
           '(quant/bias) or at least two clients with different trees (agg); distinct by case digest')
   TRUSTED = ['JAX PRNG idealisation: distinct key paths give independent uniform streams (C11_keys_fresh '
@@ -266,6 +285,12 @@ class C11(core.Property):
     # real attempt from the unchanged state on the same aggregator object.  Every arithmetic-coding
     # history has one; the other aggregators alternate (so each has faulted and fault-free histories).
     faulted = cohort is None and (agg == 'uniform_arith' or ((idx // 8) + (idx % 8)) % 2 == 0)
+    # how the client iterable is produced: a list of fresh trees, a generator of fresh trees, a
+    # generator that refills ONE dict object between yields, or one that overwrites the numpy leaf
+    # buffers of ONE tree in place (the aggregators consume a one-pass Iterable, so a streaming
+    # producer may reuse its container).  Stratified: every aggregator slot meets all four per run.
+    FEED = ['list', 'rebind', 'inplace', 'gen']
+    feed = FEED[((idx // 8) + (idx % 8) // 2) % 4] if cohort is None else rng.choice(FEED)
     if cohort is not None:
       # one round with more than 64 clients (key streams that repeat or run out only show here)
       shapes = [rng.choice([[1], [3]])]
@@ -309,7 +334,7 @@ class C11(core.Property):
       rounds.append(clients)
       round_shapes.append(shapes)
     case = {'kind': 'agg', 'agg': agg, 'L': L, 'round_shapes': round_shapes, 'rounds': rounds,
-            'seed': rng.randrange(1 << 30)}
+            'seed': rng.randrange(1 << 30), 'feed': feed}
     if faulted:
       n = len(rounds[fault_round])
       # k = number of clients consumed before the stream raises (k = 0: nothing consumed; k = n: all)
@@ -373,6 +398,8 @@ class C11(core.Property):
       rs = self.rshapes(case)
       base = {k: v for k, v in case.items() if k != 'shapes'}
       faults = case.get('faults', [])
+      if case.get('feed', 'list') != 'list':
+        yield dict(base, round_shapes=rs, feed='list')
       for i in range(len(faults)):
         yield dict(base, round_shapes=rs, faults=faults[:i] + faults[i + 1:])
       for i, (fr, k) in enumerate(faults):
@@ -800,13 +827,41 @@ class C11(core.Property):
       for fr, k in case.get('faults', []):
         faults.setdefault(fr, []).append(k)
       faulted_before = False
+      feed = case.get('feed', 'list')
+
+      def produce(cpw):
+        """the client Iterable handed to apply, built from the list of fresh trees `cpw`"""
+        if feed == 'list':
+          return cpw
+        if feed == 'gen':
+          return (c for c in cpw)
+        if feed == 'rebind':
+          def g():
+            tree = {}                       # one dict object, refilled for every client
+            for cid, t, w in cpw:
+              for k_, v_ in t.items():
+                tree[k_] = v_
+              yield cid, tree, w
+          return g()
+        if feed == 'inplace':
+          def g():
+            tree = None                     # one tree of numpy buffers, overwritten in place
+            for cid, t, w in cpw:
+              if tree is None:
+                tree = {k_: _unaligned_zeros(np.shape(v_)) for k_, v_ in t.items()}
+              for k_, v_ in t.items():
+                tree[k_][...] = np.asarray(v_)
+              yield cid, tree, w
+          return g()
+        raise core.InfraError(f'unknown feed {feed}')
+
       for r, (clients, shapes) in enumerate(zip(case['rounds'], rs)):
         cpw = [(b'c%d' % i, tree_of(lv, shapes), w) for i, (lv, w) in enumerate(clients)]
         # failed attempts of this round: the client stream raises after k clients were consumed;
         # the caller then retries from the unchanged state on the same aggregator object
         for k in faults.get(r, []):
           def stream(k=k):
-            for i, c in enumerate(cpw):
+            for i, c in enumerate(produce(cpw)):
               if i == k:
                 raise _ClientDropped(f'client {i} did not report')
               yield c
@@ -820,14 +875,17 @@ class C11(core.Property):
         for s in rec.values():
           s.clear()
         snaps = [[l.copy() for l in flat(t)] for _, t, _ in cpw]
-        out, st2 = aggr.apply(cpw, st)
+        out, st2 = aggr.apply(produce(cpw), st)
+        if out is not None:
+          out = jax.tree_util.tree_map(lambda x: np.array(x), out)
         if any(not np.array_equal(s, l) for sn, (_, t, _) in zip(snaps, cpw) for s, l in zip(sn, flat(t))):
           problems.append('client params mutated by apply')
         impl_rounds.append({'out': None if out is None else flat(out), 'st': st2,
                             'rec': {k: list(v) for k, v in rec.items()}, 'prev': st, 'ref': None})
-        if faulted_before:
-          # reference for the retried round (and the rounds after it): the same clients and state on
-          # a freshly built aggregator object
+        if faulted_before or feed != 'list':
+          # reference for a retried round (and the rounds after it) and for every streamed round:
+          # the same clients, as a list of fresh trees, and the same state on a freshly built
+          # aggregator object
           out_f, st_f = self.make_agg(case, root).apply(cpw, st)
           impl_rounds[-1]['ref'] = (None if out_f is None else flat(out_f), st_f)
         st = st2
@@ -993,9 +1051,18 @@ class C11(core.Property):
         if abs(nb - nb_f) > 1e-6 * abs(nb_f) + 1e-6:
           diffs.append(f'num_bits {nb} vs {nb_f} on a fresh aggregator')
         if diffs:
-          problems.append(f'round {r} (after failed attempts {case.get("faults")} as [round, clients consumed]) differs '
-                          f'from the same round on a fresh aggregator object: ' + ', '.join(diffs))
-          okey = okey or f'C11/{a}/retry-differs'
+          how = []
+          if case.get('faults'):
+            how.append(f'after failed attempts {case.get("faults")} as [round, clients consumed]')
+          if case.get('feed', 'list') != 'list':
+            how.append({'gen': 'clients fed by a generator of fresh trees',
+                        'rebind': 'clients fed by a generator that refills one dict object between yields',
+                        'inplace': 'clients fed by a generator that overwrites the numpy leaves of one tree in place'
+                        }[case['feed']])
+          problems.append(f'round {r} ({"; ".join(how)}) differs from the same round given as a list of fresh trees '
+                          f'to a fresh aggregator object: ' + ', '.join(diffs))
+          okey = okey or (f'C11/{a}/retry-differs' if case.get('faults') and case.get('feed', 'list') == 'list'
+                          else f'C11/{a}/stream-differs')
 
       # ---- correspondence
       m_out, m_log, m_const, m_rng = mr
@@ -1064,7 +1131,7 @@ class C11(core.Property):
     mags = [abs(x) for rd in case['rounds'] for lv, _ in rd for leaf in lv for x in leaf if x != 0.0]
     mag = 'zero' if not mags else ('tiny' if max(mags) < 1e-6 else ('large' if max(mags) > 1e5 else 'unit'))
     tags = (f'agg={a}', f'rounds={R}', f'clients={ncl if ncl <= 4 else ">64" if ncl > 64 else ">4"}',
-            f'failed_attempts={len(case.get("faults", []))}', f'leaves={len(ALL)}', f'tree_over_rounds={varies}',
+            f'failed_attempts={len(case.get("faults", []))}', f'feed={case.get("feed", "list")}', f'leaves={len(ALL)}', f'tree_over_rounds={varies}',
             f'magnitude={mag}', f'L={L}' if kind in ('uniform', 'rotated') else 'L=-')
     return Outcome(oracle_fail='; '.join(problems[:3]) or None, corr_fail='; '.join(corr[:3]) or None, key=okey,
                    nontrivial=distinct, tags=tags,
